@@ -89,11 +89,7 @@ Proof.
   - destruct (valid_diffb (build store_old rc) d) eqn:E; split; simpl; auto.
   - destruct rc as [|d older]; [split; auto|]. simpl in *. destruct H2 as [H2 H3].
     destruct (build_old_ok older H2) as [I [Ag En]]. pose proof (valid_diffb_Valid _ _ H3) as Vd.
-    destruct (no_noop_zero_write (build store_old older) d) eqn:G.
-    + rewrite revert_store_old; auto. split; auto.
-    + destruct (N.eq_dec (s_next (build store_old older)) 0).
-      * rewrite revert_store_old; auto. split; auto.
-      * rewrite revert_store_old_fails; auto. split; simpl; auto.
+    rewrite revert_store_old; auto. split; auto.
 Qed.
 
 Lemma run_inv : forall store revert, (forall c o, RunInv store c -> RunInv store (step store revert c o)) ->
